@@ -140,3 +140,6 @@ mod json {
 
 #[cfg(feature = "json")]
 pub use json::Json;
+
+#[cfg(kani)]
+include!(concat!(env!("ATTOHTTPC_VERIF_HARNESS"), "/body.rs"));
